@@ -1,7 +1,7 @@
 (* Stable, uniquely named entry points for the OCaml driver (extraction renames clashing
    identifiers such as eqb -> eqb0; these wrappers keep the driver independent of that). *)
 From Coq Require Import NArith ZArith List Bool.
-From Chess Require Import gen.T_zobrist base.Bits base.Types base.BitBoard geom.Geometry geom.GenFns geom.Lookup model.Score model.Abi model.Text model.Tracing spec.Rules model.Board model.MoveGen model.Apply model.Fen.
+From Chess Require Import gen.T_zobrist base.Bits base.Types base.BitBoard geom.Geometry geom.GenFns geom.Lookup model.Score model.Abi model.Text model.Tracing spec.Rules model.Board model.MoveGen model.Apply model.Fen model.Search.
 Import ListNotations.
 Local Open Scope N_scope.
 
@@ -159,3 +159,8 @@ Definition api_mg_set_mask := mg_set_mask.
 Definition api_mg_remove := mg_remove.
 Definition api_mg_remove_move := mg_remove_move.
 Definition api_mk_move (s d : N) (p : option piece) : move := {| m_src := s; m_dst := d; m_promo := p |}.
+
+(* ---- search (C11-C13) ---- *)
+Definition api_search (k : N) (passes fuel : nat) (root : board) := Search.search k [] passes fuel root.
+Definition api_nat_of_N := N.to_nat.
+Definition api_score_neg2 := Score.neg.
